@@ -711,7 +711,10 @@ func (g *VCGen) checkInvariants(li *loopInfo, st *State, subst map[ssa.Value]Spe
 
 func (g *VCGen) loopHeader(b *ssa.BasicBlock, li *loopInfo, preds []*ssa.BasicBlock) {
 	if li.lc == nil {
-		panic(unsupported(fmt.Sprintf("loop %d of %s has no invariant block", li.index, g.fn.String())))
+		// a loop the contract says nothing about: invariant "true" (everything the body may modify is unknown after
+		// it). Sound; obligations that depend on what the loop does will fail and name the missing invariant's effect.
+		li.lc = &LoopContract{}
+		g.warnings = append(g.warnings, fmt.Sprintf("loop %d has no invariant block: verified with the invariant 'true'", li.index))
 	}
 	pos := g.loopPos(b)
 	// 1. invariants on entry edges
